@@ -945,6 +945,7 @@ pub trait Proto {
     fn core_open(key: &KeyMat, token: &str, footer: Option<&str>, ia: Option<&str>) -> (Out<String>, Vec<&'static str>);
     /// ONE core builder object sealed from `nonces.len()` times (set_payload/set_footer/set_implicit_assertion once, or again before each seal)
     fn core_seal_many(key: &KeyMat, nonces: &[Vec<u8>], msg: &str, footer: Option<&str>, ia: Option<&str>, reconfigure: bool) -> Vec<Out<String>>;
+    fn core_script(key: &KeyMat, ops: &[CoreOp]) -> Vec<Out<String>>;
     fn generic_seal(key: &KeyMat, ops: &[ClaimOp], footer: Option<&str>, ia: Option<&str>) -> (Out<String>, Vec<&'static str>);
     /// several builds from ONE GenericBuilder (nonce-freshness histories)
     fn generic_seal_many(key: &KeyMat, ops: &[ClaimOp], footer: Option<&str>, ia: Option<&str>, n: usize, reuse: bool) -> Vec<Out<String>>;
@@ -1122,6 +1123,29 @@ macro_rules! impl_proto {
                     }
                     let (o, _) = guard(|| -> Result<String, PasetoError> { seal_core!($kind, $V, b, key, nonce.as_slice()) }, perr);
                     outs.push(o);
+                }
+                outs
+            }
+            #[allow(unused_variables)]
+            fn core_script(key: &KeyMat, ops: &[CoreOp]) -> Vec<Out<String>> {
+                let mut outs = Vec::new();
+                let mut b = Paseto::<$V, $Pu>::builder();
+                for op in ops {
+                    match op {
+                        CoreOp::Payload(m) => {
+                            b.set_payload(Payload::from(m.as_str()));
+                        }
+                        CoreOp::Footer(f) => {
+                            b.set_footer(Footer::from(f.as_str()));
+                        }
+                        CoreOp::Assertion(a) => {
+                            ia_builder!($assert, b, Some(a.as_str()));
+                        }
+                        CoreOp::Seal(nonce) => {
+                            let (o, _) = guard(|| -> Result<String, PasetoError> { seal_core!($kind, $V, b, key, nonce.as_slice()) }, perr);
+                            outs.push(o);
+                        }
+                    }
                 }
                 outs
             }
@@ -1704,6 +1728,19 @@ pub fn session(p: P, batteries: bool, keys: &[KeyMat], cfg: &ParserCfg, steps: &
 
 pub fn generic_run(p: P, key: &KeyMat, ops: &[GOp]) -> Vec<Out<String>> {
     dispatch!(p, T => T::generic_run(key, ops))
+}
+
+/// one step of a history on ONE core builder object
+#[derive(Clone, Debug, Serialize, Deserialize, PartialEq)]
+pub enum CoreOp {
+    Payload(String),
+    Footer(String),
+    Assertion(String),
+    Seal(Vec<u8>),
+}
+
+pub fn core_script(p: P, key: &KeyMat, ops: &[CoreOp]) -> Vec<Out<String>> {
+    dispatch!(p, T => T::core_script(key, ops))
 }
 
 pub fn core_seal_many(p: P, key: &KeyMat, nonces: &[Vec<u8>], msg: &str, footer: Option<&str>, ia: Option<&str>, reconfigure: bool) -> Vec<Out<String>> {
